@@ -45,12 +45,14 @@ def check_forward(case):
     ell = S.make_ellipsoid(case["ell"])
     a, invf = S.ellipsoid_params(case["ell"])
     lat_o = S.angle_obj(case["kind"], case["lat"])
-    lon_o = S.angle_obj(case["kind"], case["lon"])
+    lon_o = S.angle_obj(case.get("kind2") or case["kind"], case["lon"])
     lat = S.obj_dec(lat_o)
     lon = S.obj_dec(lon_o)
     nk = case.get("num", "float")
-    if case["kind"] == "float":
-        lat_o, lon_o = S.as_kind(lat, nk), S.as_kind(lon, nk)
+    if type(lat_o) is float:
+        lat_o = S.as_kind(lat, nk)
+    if type(lon_o) is float:
+        lon_o = S.as_kind(lon, nk)
     if case["ell"] == "grs80" and case["h"] == 0 and case.get("defaults"):
         got = cv.llh2xyz(lat_o, lon_o)                                   # height 0 and GRS80 are the documented defaults
     elif case["ell"] == "grs80" and case.get("defaults"):
@@ -66,7 +68,7 @@ def check_forward(case):
     if not d <= 1e-6:
         raise Fail("llh2xyz differs from the closed form by more than 1 micrometre",
                    expected={"xyz": want, "tol_m": 1e-6}, observed={"xyz": got, "dist_m": d})
-    if case["kind"] != "float":
+    if case["kind"] != "float" or (case.get("kind2") or "float") != "float":
         plain = cv.llh2xyz(lat, lon, case["h"], ell)
         if tuple(plain) != tuple(got):
             raise Fail("llh2xyz with angle objects differs from the call with their decimal values",
@@ -78,7 +80,16 @@ def _check_inverse_xyz(x, y, z, case):
     ell = S.make_ellipsoid(case["ell"])
     a, invf = S.ellipsoid_params(case["ell"])
     nk = case.get("num", "float")
-    got = cv.xyz2llh(S.as_kind(x, nk), S.as_kind(y, nk), S.as_kind(z, nk), ell)
+    if nk == "int" and case.get("whole"):
+        x, y, z = float(round(x)), float(round(y)), float(round(z))          # whole metres: all three arguments Python ints
+        if not math.hypot(x, y) > 0.0:
+            raise Discard()
+    if case["ell"] == "grs80" and case.get("defaults") == 1:
+        got = cv.xyz2llh(S.as_kind(x, nk), S.as_kind(y, nk), S.as_kind(z, nk))              # GRS80 is the documented default
+    elif case.get("defaults") == 2:
+        got = cv.xyz2llh(x=S.as_kind(x, nk), y=S.as_kind(y, nk), z=S.as_kind(z, nk), ellipsoid=ell)
+    else:
+        got = cv.xyz2llh(S.as_kind(x, nk), S.as_kind(y, nk), S.as_kind(z, nk), ell)
     if not (isinstance(got, tuple) and len(got) == 3):
         raise Fail("xyz2llh did not return (lat, lon, h)", observed=repr(got))
     lat, lon, h = got
@@ -124,6 +135,10 @@ def check_inverse_direct(case):
         raise Discard()
     lam = math.radians(case["az"])
     x, y = p * math.cos(lam), p * math.sin(lam)
+    if case.get("plane"):
+        # exactly in a coordinate plane through the axis (cos(90 deg) is 6e-17, not 0, so the azimuth route never gets there):
+        # x == 0 (y of either sign), or y == +-0.0 with x of either sign (x < 0 is the +-180 deg meridian)
+        x, y = {"x0+": (0.0, p), "x0-": (0.0, -p), "-x,+0": (-p, 0.0), "-x,-0": (-p, -0.0), "+x,-0": (p, -0.0)}[case["plane"]]
     # height of this point must lie in [-1e4, 4e7]: r in [a-1e4 .. a+4e7] guarantees h >= -1e4 - (a-b)?  no:
     # near the poles r = a - 1e4 is ~11 km above... fine, and near the equator exactly -1e4. Lower bound on h is
     # r - a >= -1e4; upper bound r - b <= 4e7 + 43 km.  Keep h <= 4e7 by construction of r_off <= 3.99e7.
@@ -156,14 +171,22 @@ def _classes(case):
             out.append("h<0")
     if case.get("mode"):
         out.append("mode:" + case["mode"])
+    if case.get("plane"):
+        out.append("plane:" + case["plane"])
+    if case.get("num") == "int" and case.get("whole") and "kind" not in case:
+        out.append("all-int xyz")
+    if case.get("defaults") in (1, 2) and "kind" not in case:
+        out.append("xyz2llh:" + ("default ellipsoid" if case["defaults"] == 1 and case["ell"] == "grs80" else
+                                  ("keywords" if case["defaults"] == 2 else "positional")))
     out.append("num:" + case.get("num", "float"))
     return out
 
 
 forward_cases = st.fixed_dictionaries({
     "lat": S.whole_sometimes(lat_s), "lon": S.whole_sometimes(lon_s), "h": S.whole_sometimes(h_s), "ell": S.ellipsoid_spec(),
-    "kind": S.angle_kind, "num": S.num_kind, "defaults": st.booleans()})
-inv_geo_cases = st.fixed_dictionaries({"lat": lat_s, "lon": lon_s, "h": h_s, "ell": S.ellipsoid_spec(), "num": S.num_kind})
+    "kind": S.angle_kind, "kind2": st.one_of(st.none(), st.none(), st.none(), S.angle_kind), "num": S.num_kind, "defaults": st.booleans()})
+inv_geo_cases = st.fixed_dictionaries({"lat": lat_s, "lon": lon_s, "h": h_s, "ell": S.ellipsoid_spec(), "num": S.num_kind,
+                                       "whole": st.booleans(), "defaults": st.sampled_from([0, 0, 1, 2])})
 inv_direct_cases = st.fixed_dictionaries({
     "mode": st.sampled_from(["dir", "dir", "p"]),
     "elev": st.one_of(S.floats(-90, 90), st.sampled_from([0.0, 45.0, -45.0, 89.9999, -89.9999])),
@@ -171,7 +194,8 @@ inv_direct_cases = st.fixed_dictionaries({
     "p": st.one_of(S.log_uniform(1e-12, 6.4e6), S.log_uniform(1e-3, 6.4e6)),
     "zsign": st.sampled_from([1.0, -1.0]),
     "r_off": st.one_of(S.floats(-1e4, 3.99e7), S.floats(-1e4, 1e4), st.just(0.0)),
-    "ell": S.ellipsoid_spec(), "num": S.num_kind})
+    "ell": S.ellipsoid_spec(), "num": S.num_kind, "whole": st.booleans(), "defaults": st.sampled_from([0, 0, 1, 2]),
+    "plane": st.sampled_from([None] * 6 + ["x0+", "x0-", "-x,+0", "-x,-0", "+x,-0"])})
 
 SUBCHECKS = [
     SubCheck("forward_closed_form", check_forward, strategy=forward_cases, nontrivial=_nt, classes=_classes,
